@@ -41,7 +41,7 @@ package types
 //@ ensures err == nil ==> result == tssGroup(Other, groupID)
 //@ func (k TSSKeeper) MustGetGroup
 //@ trusted
-//@ may_panic
+//@ may_panic calls
 //@ ensures result == tssGroup(Other, groupID)
 //@ spec tssSigning(o OtherState, id Int) tsstypes.Signing uninterpreted
 //@ func (k TSSKeeper) MustGetSigning
@@ -53,7 +53,7 @@ package types
 //@ trusted
 //@ func (k TSSKeeper) MustGetMembers
 //@ trusted
-//@ may_panic
+//@ may_panic calls
 //@ func (k TSSKeeper) GetMemberByAddress
 //@ trusted
 //@ spec tssDEQ(o OtherState, a Addr) tsstypes.DEQueue uninterpreted
